@@ -217,10 +217,117 @@ def static_call(ex, st, frame, ins, callee, args):
     if h is not None:
         ex.trusted.add('library contract: ' + re.sub(r'\[.*\]', '[...]', callee))
         return h(ex, st, frame, ins, args)
-    c = ex.extern_contract(callee)
+    c = ex.extern_contract(callee) or ex.extern_contract(short_callee(callee))
     if c is not None:
-        return ex.call_extern_contract(st, frame, ins, callee, c, args)
+        ex._extern_full = callee
+        if callee.startswith('(*') and args and is_externpure(ex, callee):
+            ex.nil_check(st, frame, ins, ex.ptr_of(args[0]))
+        return ex.call_extern_contract(st, frame, ins, short_callee(callee), c, args)
+    if is_externpure(ex, callee):
+        if callee.startswith('(*') and args:
+            # a method with pointer receiver of a type outside the module: dereferences its receiver
+            ex.nil_check(st, frame, ins, ex.ptr_of(args[0]))
+        return pure_value(ex, st, ins.get('t'), 'ext_' + short_callee(callee), args)
     return opaque_result(ex, st, ins, re.sub(r'\[.*\]', '[...]', callee))
+
+
+def short_callee(callee):
+    """(*github.com/x/y/antlr.FooContext).Bar -> (*antlr.FooContext).Bar"""
+    return re.sub(r'[A-Za-z0-9_.\-]+(?:/[A-Za-z0-9_.\-]+)*/([A-Za-z0-9_\-]+)\.', r'\1.', callee)
+
+
+def is_externpure(ex, name):
+    return any(p in name for p in ex.db.externpure)
+
+
+def pure_value(ex, st, t, key, args):
+    """result of a deterministic, side-effect free external function: uninterpreted functions of the arguments"""
+    m = ex.m
+    ex.trusted.add('externpure: ' + key)
+    if not t or t == '()':
+        return None
+    terms = []
+    sorts = []
+    # a method of a parse-tree type: one function per method NAME over the dynamic receiver, so that a call through an
+    # interface and a call on the concrete pointer (after a type switch) denote the same value
+    mm = re.match(r'ext_invoke_[^ ]*\.([A-Za-z0-9_]+)$', key) or re.match(r'ext_\(\*[^)]*\)\.([A-Za-z0-9_]+)$', key)
+    if mm and args:
+        r0 = args[0]
+        canon = None
+        if m.kind(r0.t) == 'interface':
+            canon = r0.leaves[0]
+        elif m.kind(r0.t) == 'pointer' and r0.t in m.any_index and (r0.ptr is None or (r0.ptr.kind == 'obj' and r0.ptr.path == '')):
+            canon = m.any_make(r0.t, [r0.ptr.ref if r0.ptr is not None else r0.leaves[0]])
+        elif m.kind(r0.t) == 'pointer' and r0.ptr is not None and r0.ptr.kind == 'obj' and r0.ptr.path and r0.ptr.idx is None:
+            # a promoted method called on the embedded field of an object: the call o.M() of the enclosing object,
+            # when (*Outer).M is that very method (no override on the way)
+            outer = m.types.get(r0.ptr.T) or {}
+            decl = (outer.get('promoted') or {}).get(mm.group(1))
+            recv_t = re.match(r'ext_\(\*([^)]*)\)', key)
+            pk = '*' + r0.ptr.T
+            if decl and recv_t and decl.lstrip('*').rsplit('/', 1)[-1] == recv_t.group(1) and pk in m.any_index:
+                canon = m.any_make(pk, [r0.ptr.ref])
+        if canon is not None:
+            key = 'ext_m_%s:%s' % (mm.group(1), str(t).rsplit('/', 1)[-1])
+            terms.append(canon)
+            sorts.append(canon.sort())
+            args = args[1:]
+    for a in args:
+        if a.ptr is not None and not (a.ptr.kind == 'obj' and a.ptr.path == ''):
+            # an interior pointer (e.g. the embedded base context of a generated context type): identified by
+            # the object it points into and the path
+            key += '@%s.%s' % (str(a.ptr.T).rsplit('/', 1)[-1], a.ptr.path)
+            terms.append(a.ptr.ref)
+            sorts.append(a.ptr.ref.sort())
+            if a.ptr.idx is not None:
+                terms.append(a.ptr.idx)
+                sorts.append(a.ptr.idx.sort())
+            continue
+        if a.ptr is not None:
+            terms.append(a.ptr.ref)
+            sorts.append(a.ptr.ref.sort())
+            continue
+        for l in a.leaves:
+            terms.append(l)
+            sorts.append(l.sort())
+
+    def one(tk, tag):
+        leaves = []
+        for i, (pth, srt, tk2) in enumerate(m.layout(tk)):
+            f = m.uf('%s%s#%d' % (key, tag, i), *(sorts + [m.sort(srt)]))
+            leaf = f(*terms) if terms else f()
+            if pth.endswith('#off'):
+                leaf = z3.IntVal(0)
+            leaves.append(leaf)
+        v = Val(tk, leaves)
+        for (pth, srt, tk2), leaf in zip(m.layout(tk), v.leaves):
+            if srt == 'Int':
+                k = m.kind(tk2)
+                if k in ('pointer', 'map') or (k == 'slice' and pth.endswith('#arr')):
+                    st.assume(z3.And(leaf >= 0, leaf < ex.entry_alloc))
+                elif k == 'slice' and pth.endswith('#len'):
+                    st.assume(leaf >= 0)
+            if srt == 'Str':
+                st.assume(m.slen(leaf) >= 0)
+        ex.type_invariant(st, v)
+        if m.kind(tk) == 'slice' and is_externpure(ex, m.elem(tk)) and m.kind(m.elem(tk)) in ('interface', 'pointer'):
+            # T3: the list accessors of the parse tree return the children of the wanted type, none of them nil
+            E = m.elem(tk)
+            lay = m.layout(E)
+            nm = ex.aname(E, lay[0][0], lay[0][1])
+            i = z3.Int('tl!i')
+            cell = st.heap(nm)[v.leaves[0]][i]
+            nil = m.Any.nil if lay[0][1] == 'Any' else z3.IntVal(0)
+            st.assume(forall([i], z3.Implies(z3.And(i >= 0, i < v.leaves[2]), cell != nil), [cell]))
+            ex.trusted.add('T3: list accessors of the parse tree return no nil element')
+        for idx, (pth, srt, tk2) in enumerate(m.layout(tk)):
+            if pth.endswith('#arr') and idx + 2 < len(v.leaves):
+                st.assume(z3.Implies(v.leaves[idx] == 0, v.leaves[idx + 2] == 0))
+        return v
+    if m.types[t]['kind'] == 'tuple':
+        vals = [one(e, '.%d' % i) for i, e in enumerate(m.types[t]['elems'])]
+        return ex.tuple_val(t, vals)
+    return one(t, '')
 
 
 def _int_binop(f):
@@ -351,7 +458,7 @@ def big_Int_Exp(ex, st, frame, ins, args):
     a = bi_read(ex, st, frame, ins, x)
     b = bi_read(ex, st, frame, ins, y)
     f = ex.m.uf('bigexp', ex.m.Int, ex.m.Int, ex.m.Int)
-    r = f(a, b)
+    r = z3.If(mm.leaves[0] == 0, f(a, b), ex.m.fresh('modexp', ex.m.Int))
     # pow10 facts used by the percentage parser: 10^k > 0
     st.assume(z3.Implies(z3.And(a > 0, b >= 0), r > 0))
     bi_write(ex, st, frame, ins, z, r)
@@ -497,6 +604,8 @@ def strings_Split(ex, st, frame, ins, args):
     n = m.uf('nsplit', m.Str, m.Str, m.Int)
     part = m.uf('splitpart', m.Str, m.Str, m.Int, m.Str)
     st.assume(n(s, sep) >= 1)
+    j = z3.Int('j!sp')
+    st.assume(forall([j], m.slen(part(s, sep, j)) >= 0, [part(s, sep, j)]))
     arr = ex.alloc_ref(st)
     name = ex.aname('string', '', 'Str')
     ex.written.add(name)
@@ -537,6 +646,17 @@ def strings_TrimSuffix(ex, st, frame, ins, args):
     r = f(s, suf)
     st.assume(z3.And(m.slen(r) >= 0, m.slen(r) <= m.slen(s)))
     return Val('string', [r])
+
+
+def strings_Cut(ex, st, frame, ins, args):
+    m = ex.m
+    s, sep = args[0].leaves[0], args[1].leaves[0]
+    bf = m.uf('cutbefore', m.Str, m.Str, m.Str)(s, sep)
+    af = m.uf('cutafter', m.Str, m.Str, m.Str)(s, sep)
+    fd = m.uf('cutfound', m.Str, m.Str, m.Bool)(s, sep)
+    st.assume(z3.And(m.slen(bf) >= 0, m.slen(af) >= 0))
+    st.assume(z3.If(fd, m.slen(bf) + m.slen(sep) + m.slen(af) == m.slen(s), z3.And(bf == s, m.slen(af) == 0)))
+    return ex.tuple_val(ins['t'], [Val('string', [bf]), Val('string', [af]), Val('bool', [fd])])
 
 
 def strings_Index(ex, st, frame, ins, args):
@@ -791,6 +911,7 @@ TABLE = {
     'strings.Replace': str_uf('sreplace', 4),
     'strings.Repeat': strings_Repeat,
     'strings.Index': strings_Index,
+    'strings.Cut': strings_Cut,
     'strconv.Atoi': strconv_Atoi,
     'strconv.ParseUint': strconv_ParseUint,
     'fmt.Sprintf': fmt_Sprintf,
@@ -825,4 +946,6 @@ def invoke(ex, st, frame, ins, recv, method, args):
         c = ex.extern_contract(nm)
         if c is not None:
             return ex.call_extern_contract(st, frame, ins, nm, c, [recv] + args)
+    if is_externpure(ex, recv.t):
+        return pure_value(ex, st, ins.get('t'), 'ext_invoke_%s.%s' % (recv.t.rsplit('/', 1)[-1], method), [recv] + args)
     return NOT_HANDLED
